@@ -195,6 +195,13 @@ def run_stream(res: Result, seed: int) -> None:
                     k += 1
                     info = AsyncServiceInfo(T2, "ghost%d.%s" % (k % 3, T2))
                     res.mon("c15.lookup_contained")
+                    if k % 3 == 1:
+                        # "any timing": a valid answer that concerns this lookup is delivered in the very loop pass in which
+                        # one of its waits runs out (the deadline is the one wait whose end is known in advance) - once
+                        # just before and once just after the timer, both within the loop's clock resolution
+                        for eps_ms in (0.0, 4e-7):
+                            txt = ("TXT", "ghost%d.%s" % (k % 3, T2), (b"\x04k=%02d" % (k % 100),))
+                            sim.net.inject(host, R.build_response([(txt, 4500, True)], id_=0), ("10.0.0.2", 5353), delay_ms=3000.0 + eps_ms)
                     try:
                         await info.async_request(zc, 3000)
                     except Exception as e:  # noqa - hostile records must not turn a lookup in progress into an exception: in an
